@@ -255,6 +255,7 @@ def run(ck):
     ck.gen_from_source()
     ck.coq_build(["props/C18.vo", "extract/C18_extract.vo"])
     ck.print_assumptions(["DSP.C18"], ["DSP.C18." + t for t in THEOREMS])
+    ck.source_tie("fs")
     ck.hygiene()
     ck.ocaml_build()
     ck.harness_build(["c18"])
